@@ -82,6 +82,7 @@ type scenario struct {
 	PClose      bool    `json:"pclose,omitempty"`       // Proxy.Close() is called while the shaped response is in flight
 	PCloseEarly bool    `json:"pclose_early,omitempty"` // ... while the round trip is still under way (the proxy then marks the response "Connection: close" itself)
 	Up          int     `json:"up,omitempty"`           // tunnel scenarios: bytes the client sends to the tunnel's target
+	Cls         string  `json:"cls,omitempty"`          // round 7: the scenario class the signatures of this scenario carry instead of the size / range-start class
 	HeadPad     int     `json:"headpad,omitempty"`      // the response head carries an X-Pad header of this many bytes (heads larger than the proxy's 4096-byte write buffer reach the shaped connection in several writes) // index of the shape whose url_regex matches the requested URL (the others name other URLs)
 }
 
@@ -679,6 +680,9 @@ func run(sc scenario) (body func(), check func(r *vrt.Result) []finding) {
 			}
 		}
 		cls := fmt.Sprintf("n=%s:r=%s", sizeClass(sc.N), map[bool]string{true: "0", false: ">0"}[sc.R == 0])
+		if sc.Cls != "" {
+			cls = sc.Cls
+		}
 		if strings.HasPrefix(sc.Reconf, "rejected") && reconfStatus != 400 {
 			add("invalid_config_accepted", "invalid configuration %s was answered %d", sc.Reconf2, reconfStatus)
 		}
@@ -1178,6 +1182,7 @@ func scenarios(tier string) []scenario {
 		out = append(out, scenario{Name: "invalid-config", Shapes: base, N: 600, Match: true, Conns: 1, Reconf: "rejected-before", Reconf2: b})
 	}
 	out = append(out, auditScenarios(tier)...)
+	out = append(out, round7Scenarios(tier)...)
 	return out
 }
 
@@ -1337,8 +1342,8 @@ func main() {
 	rep.Coverage["exhaustive"] = rep.Incomplete == ""
 	rep.Coverage["evaluations"] = rep.Counter("executions")
 	rep.Coverage["distinct_nontrivial"] = rep.Counter("distinct_nontrivial")
-	rep.Coverage["rule"] = "scenarios are listed by scenarios()+auditScenarios() (finite products of shape sets x sizes x range starts x write sizes x paths x histories, nothing sampled); every schedule of a scenario within its deviation bound is executed; a scenario is non-trivial when in at least one execution shaping visibly acted: a connection was cut, virtual time passed between request and end of response, or a configuration was rejected"
-	rep.Coverage["bounds"] = fmt.Sprintf("%d scenarios: close actions at offsets {0,1,n-1,n,n+1,5000,6000}+range start x sizes {0,1,600,4095,4096,4097,10000} x range starts {0,1,4096} x body chunkings, next to the 4096-byte flush and the 32768-byte copies of a 70000-byte body; halts at {r-1,r,r+1,r+n-1,r+n,r+n+1,r+4500}, equal offsets, counts over sequential connections; throttles (single, adjacent, gap, unsorted, three, around the range start, tiny bandwidths, max bandwidth), latency, non-matching URL; Content-Length and chunked framing; plain, CONNECT+clear and CONNECT+TLS (MITM) paths, blind CONNECT tunnels (also after shaped responses on the same connection); default bandwidths; counts {1,2,-1} over sequential and concurrent connections; reconfiguration after accept / during upload / in flight / between two requests, with closes, delays, dropped shapes; 67+3 invalid configurations before the accept, 3 after the accept and in flight; client leaving mid-response, proxy closing mid-response; shared global bandwidth over sequential/concurrent connections; default schedule, <=1 (quick) / <=2-3 (thorough) deviations for concurrent and in-flight scenarios (per-scenario bound chosen so that it completes)", len(scen))
+	rep.Coverage["rule"] = "scenarios are listed by scenarios()+auditScenarios()+round7Scenarios() (finite products of shape sets x sizes x range starts x write sizes x paths x histories, nothing sampled); every schedule of a scenario within its deviation bound is executed; a scenario is non-trivial when in at least one execution shaping visibly acted: a connection was cut, virtual time passed between request and end of response, or a configuration was rejected"
+	rep.Coverage["bounds"] = fmt.Sprintf("%d scenarios: close actions at offsets {0,1,n-1,n,n+1,5000,6000}+range start x sizes {0,1,600,4095,4096,4097,10000} x range starts {0,1,4096} x body chunkings, next to the 4096-byte flush and the 32768-byte copies of a 70000-byte body; halts at {r-1,r,r+1,r+n-1,r+n,r+n+1,r+4500}, equal offsets, counts over sequential connections; throttles (single, adjacent, gap, unsorted, three, around the range start, tiny bandwidths, max bandwidth; every permutation of 2- and 3-interval lists x range starts before / at the first byte of / inside / at the last byte of / behind every interval), latency, non-matching URL; Content-Length and chunked framing; plain, CONNECT+clear and CONNECT+TLS (MITM) paths, blind CONNECT tunnels (also after shaped responses on the same connection); default bandwidths; counts {1,2,-1} over sequential and concurrent connections; reconfiguration after accept / during upload / in flight / between two requests, with closes, delays, dropped shapes; 67+3 invalid configurations before the accept, 3 after the accept and in flight; client leaving mid-response, proxy closing mid-response; shared global bandwidth over sequential/concurrent connections; default schedule, <=1 (quick) / <=2-3 (thorough) deviations for concurrent and in-flight scenarios (per-scenario bound chosen so that it completes)", len(scen))
 	rep.Coverage["explanation"] = "each execution runs the real proxy.go + trafficshape over simnet with virtual time; bucket spin loops are parked until the epoch changes (a drain tick)"
 	rep.Assumptions = []string{"virtual time only advances at quiescence; ticker phase is fixed by bucket creation time; delays are judged with a slack of one drain interval per bucket plus 1 s", "real crypto/tls runs inside the simulation for the MITM scenarios (its internal locks are not scheduling points)"}
 	rep.Finish()
